@@ -42,7 +42,7 @@ def strategy(tier):
                 families=("nlp", "nlp", "qp", "qp", "degenerate", "patternvar"),
                 max_n=4 if tier == "quick" else 6,
                 max_m=3,
-                scalings=("none", "custom", "custom", "gradjac"),
+                scalings=("none", "custom", "custom", "gradjac", "nominal", "kkt"),
                 iteration_limit=40 if tier == "quick" else 150,
             )
         )
